@@ -92,8 +92,9 @@ type c07Runner struct {
 	mu    sync.Mutex
 	evs   []c07Ev
 	etags map[string]string // etag -> value id
-	vers  sync.Map          // version id -> value id
-	upID  string
+	vers    sync.Map // version id -> value id
+	deleted sync.Map // version ids removed by delver-all
+	upID    string
 }
 
 func (r *c07Runner) now() int64 { return int64(time.Since(r.t0)) }
@@ -136,6 +137,29 @@ func (r *c07Runner) exec(client, seq int, op c07Op, rqHook func(*s3x.Req), o s3x
 		r.etags[etagOf(body)] = id
 		r.mu.Unlock()
 		rq = &s3x.Req{Method: "PUT", Path: "/bk0/mp", Query: s3x.Q("partNumber", fmt.Sprint(op.Part), "uploadId", r.upID), Body: body}
+	case "delver-all":
+		// delete every version of the key that exists right now, by ID
+		ev.Call = r.now()
+		lv := r.do(&s3x.Req{Method: "GET", Path: "/bk0", Query: s3x.Q("versions", s3x.Bare, "prefix", key)}, o)
+		ev.Status = 204
+		if doc, err := s3x.ParseVersions(lv.Body); err == nil {
+			for _, e := range doc.Entries {
+				if e.Key != key {
+					continue
+				}
+				d := r.do(&s3x.Req{Method: "DELETE", Path: "/bk0/" + key, Query: s3x.Q("versionId", e.VersionId)}, o)
+				if d.Status != 204 {
+					ev.Status = d.Status
+					ev.Note = "delete version answered " + d.String()
+				}
+				r.deleted.Store(e.VersionId, true)
+			}
+		} else {
+			ev.Status = lv.Status
+		}
+		ev.Ret = r.now()
+		r.record(ev)
+		return
 	}
 	if rqHook != nil {
 		rqHook(rq)
@@ -306,6 +330,10 @@ func c07Judge(cs c07Case, evs []c07Ev) (ds []disc, overlapping bool) {
 		case "list":
 			if e.Status != 200 {
 				fail("list-failed", "client %d op %d list answered %d", e.Client, e.Seq, e.Status)
+			}
+		case "delver-all":
+			if e.Status != 204 {
+				fail("delete-version-failed", "client %d op %d: %s", e.Client, e.Seq, e.Note)
 			}
 		}
 	}
@@ -538,7 +566,11 @@ func c07Gated(cs c07Case) (ds []disc, evs []c07Ev, overlapped int) {
 	defer r.st.Close()
 	g := cs.Gated
 	// the object the slow reader downloads / the slow uploader overwrites
-	r.exec(90, 0, c07Op{K: "put", Key: 0, Size: g.Size}, nil, s3x.DoOpts{})
+	initKind := "put"
+	if cs.Versioned {
+		initKind = "vput"
+	}
+	r.exec(90, 0, c07Op{K: initKind, Key: 0, Size: g.Size}, nil, s3x.DoOpts{})
 	gates := make([]chan struct{}, len(g.GateAt))
 	reached := make([]chan struct{}, len(g.GateAt))
 	for i := range gates {
@@ -555,10 +587,14 @@ func c07Gated(cs c07Case) (ds []disc, evs []c07Ev, overlapped int) {
 		}
 	}
 	slowDone := make(chan struct{})
+	slowKind := "put"
+	if cs.Versioned {
+		slowKind = "vput"
+	}
 	go func() {
 		defer close(slowDone)
 		if g.Slow == "uploader" {
-			r.exec(91, 0, c07Op{K: "put", Key: 0, Size: g.Size + 7}, func(rq *s3x.Req) {
+			r.exec(91, 0, c07Op{K: slowKind, Key: 0, Size: g.Size + 7}, func(rq *s3x.Req) {
 				rq.Frag = s3x.Frag{Mode: "n", N: 1024}
 				rq.Gate = hit
 			}, s3x.DoOpts{})
@@ -608,6 +644,35 @@ func c07Gated(cs c07Case) (ds []disc, evs []c07Ev, overlapped int) {
 		r.exec(99, k, c07Op{K: "get", Key: k}, nil, s3x.DoOpts{})
 	}
 	evs = r.evs
+	if cs.Versioned {
+		// with version deletions in play the per-key register model does not apply; the statement's
+		// clause for versioned uploads does: every acknowledged upload got a distinct ID whose
+		// content is exactly that upload (unless that very version was deleted by ID afterwards)
+		for _, e := range evs {
+			if e.Status == -1 {
+				ds = append(ds, dsc("panic", "client %d op %d %s: %s", e.Client, e.Seq, e.Op.K, e.Note)...)
+			}
+			if e.Op.K != "vput" || e.Status != 200 {
+				continue
+			}
+			if e.Note != "" {
+				ds = append(ds, dsc("duplicate-version-id", "%s", e.Note)...)
+			}
+			if e.Version == "" {
+				ds = append(ds, dsc("no-version-id", "versioned upload by client %d op %d got no version ID", e.Client, e.Seq)...)
+				continue
+			}
+			if _, gone := r.deleted.Load(e.Version); gone {
+				continue
+			}
+			gv := s3x.Do(r.st.Handler, &s3x.Req{Method: "GET", Path: "/bk0/" + c07Key(e.Op.Key), Query: s3x.Q("versionId", e.Version)})
+			want, _ := c07Body(e.Client, e.Seq, e.Op.Size)
+			if gv.Status != 200 || !bytes.Equal(gv.Body, want) {
+				ds = append(ds, dsc("acknowledged-version-lost", "upload %s was acknowledged with version %s, which nobody deleted, but GET by that ID answers %d (%d bytes)", e.Wrote, e.Version, gv.Status, len(gv.Body))...)
+			}
+		}
+		return
+	}
 	jd, _ := c07Judge(cs, evs)
 	ds = append(ds, jd...)
 	return
@@ -920,6 +985,23 @@ func c07Run(t *testing.T, c *evid.Collector) {
 				ops = append(ops, op)
 			}
 			g.Between = append(g.Between, ops)
+		}
+		if cs.Backend == backends.Mem && rapid.IntRange(0, 2).Draw(rt, "versioned") == 0 {
+			cs.Versioned = true
+			for i := range g.Between {
+				for j := range g.Between[i] {
+					switch g.Between[i][j].K {
+					case "put":
+						g.Between[i][j].K = "vput"
+					case "copy", "del":
+						if rapid.Bool().Draw(rt, "asdelver") {
+							g.Between[i][j] = c07Op{K: "delver-all", Key: g.Between[i][j].Key}
+						} else {
+							g.Between[i][j].K = "get"
+						}
+					}
+				}
+			}
 		}
 		cs.Gated = g
 		ds, evs, overlapped := c07Gated(cs)
